@@ -23,7 +23,7 @@ PROP = dict(
                            "tree:with-name-250..260": 8000, "tree:comment-char-inside-plain-value": 8000,
                            "decoration:comments": 240000, "decoration:blank-lines": 240000, "decoration:trailing-comments": 40000,
                            "decoration:crlf": 40000}),
-              dict(name="c09_cxx", src=["c09_cxx.cpp", "c09_tree.c"], libs=["mpt++", "mptio", "mptplot", "mptcore"], batch=512, lsan=True,
+              dict(name="c09_cxx", memcheck=500, src=["c09_cxx.cpp", "c09_tree.c"], libs=["mpt++", "mptio", "mptplot", "mptcore"], batch=512, lsan=True,
                    floors={"parser::read": 100000, "parser::open": 45000, "config_parser::reset": 40000,
                            "monitor:trees-equal:first-read": 40000, "monitor:trees-equal:after-reset": 40000,
                            "monitor:trees-equal:after-reopen": 10000, "state:read-into-used-node": 15000,
